@@ -8,6 +8,7 @@ earlier round succeeded is a deviation too (the parser's own output must be re-e
 
 import ast
 import sys
+from collections import OrderedDict
 from copy import deepcopy
 
 from vcdd import core
@@ -31,7 +32,15 @@ ASSUMPTIONS = ["round 1 may normalise arbitrarily (or reject the interface: coun
 
 def streams(ctx):
     return [("wide", ctx.scale(600, 5000)), ("legal", ctx.scale(350, 3000)), ("announced", ctx.scale(400, 3000)),
-            ("undocumented", ctx.scale(300, 2000)), ("similar", ctx.scale(150, 1500))]
+            ("undocumented", ctx.scale(300, 2000)), ("similar", ctx.scale(150, 1500)),
+            ("code_defaults", ctx.scale(200, 1500))]
+
+
+# container / union / dotted types whose defaults are written as code (```[3, 4]```), the form every non-literal default has
+CODE_DEFAULTS = {"List[int]": ("```[3, 4]```", "```[]```", "```list(range(3))```"), "Tuple[int, int]": ("```(1, 2)```",),
+                 "Optional[List[int]]": ("```[1]```",), "Union[int, float]": ("```2 ** 3```", "```max(1, 2)```"),
+                 "dict": ("```{}```", "```dict(a=1)```"), "np.ndarray": ("```np.empty(0)```",), "List[float]": ("```[0.5]```",),
+                 "Callable[[int], int]": ("```abs```",)}
 
 
 def gen_case(ctx, stream, idx):
@@ -49,6 +58,17 @@ def gen_case(ctx, stream, idx):
                            with_return=False, all_defaults=r.random() < 0.7)
         if r.random() < 0.2:
             ir["doc"] = ""
+    elif stream == "code_defaults":
+        ir = irgen.rand_ir(r, nparams=r.randint(1, 3), type_kinds=("int", "float", "str", "bool"),
+                           default_kinds=("int", "float", "str", "bool"), doc_kinds=("plain", "stop"), all_defaults=True,
+                           with_return=False)
+        for nm in r.sample([n for n in irgen.NAMES[:24] if n not in ir["params"]], r.randint(1, 3)):
+            typ = r.choice(sorted(CODE_DEFAULTS))
+            ir["params"][nm] = {"typ": typ, "doc": irgen.rand_doc(r, stop=False), "default": r.choice(CODE_DEFAULTS[typ])}
+        if r.random() < 0.5:
+            typ = r.choice(sorted(CODE_DEFAULTS))
+            ir["returns"] = OrderedDict((("return_type", {"typ": typ, "doc": irgen.rand_doc(r, stop=False),
+                                                         "default": r.choice(CODE_DEFAULTS[typ])}),))
     elif stream == "similar":
         ir = irgen.similar_ir(r, with_return=r.random() < 0.4, all_defaults=r.random() < 0.5)
     elif stream == "announced":
@@ -218,6 +238,11 @@ def run_case(ctx, P, stream, idx):
     legal = irgen.defaults_form_suffix(ir0)
     for fmt in FORMATS:
         if fmt == "json_schema" and not json_ok(ir0):
+            continue
+        if stream == "code_defaults" and fmt not in ("class", "pydantic", "function"):
+            # code-quoted defaults are followed through the formats that carry a default as code (assignment / signature);
+            # through docstring prose and argparse strings they belong to the families recorded under C01 / C02
+            # (default-cut-at-dot, loads-typed argparse defaults)
             continue
         styles = STYLES if (legal and fmt != "json_schema") else ("rest",)
         for style in styles:
